@@ -32,9 +32,18 @@ Case families: 'std' (cube_util.gen_case: every Cat/Mr/Arr class pair, 1-D..3-D,
 out, codes the catalogue does not know, missing elements anywhere - see c01_shapes.py),
 'numarr' (numeric arrays alone / by cat / by MR / by cat x cat / three grouping axes), 'nub'
 (no dimension), 'typed' (dimensions that stress the type detection) -- see c01_shapes.py.
+
+PAYLOAD NUMBER TYPES and MULTITABLE COLUMNS (after seeded changes C01-9 / C01-10, which only the generated
+obligations noticed): `number_type_fails` re-reads every case with a numeric measure from a response whose
+numbers are numpy scalars (np.int64 for whole numbers, np.float32 where exact, np.float64 otherwise) and
+demands value-exactly the same counts and numeric measures; `multitable_fails` runs weighted (fractional)
+multitables whose single-column filter cubes list fewer rows than the summary (the library augments them)
+against the harness' own tabulation of the filtered survey.  Distribution keys `payload-number-types:*`,
+`multitable:*`.
 """
 import json
 import random
+from fractions import Fraction
 
 import numpy as np
 
@@ -728,6 +737,101 @@ def late_read_fails(case, max_parts=2):
     return fails, n
 
 
+def _np_number(x, mode):
+    """the same number as a numpy scalar (a response handed over as a dict built in memory from numpy
+    aggregations): np.float64 always; np.int64 for whole numbers; np.float32 when float32 holds it exactly"""
+    import numpy as np
+    if isinstance(x, bool) or not isinstance(x, (int, float)):
+        return x
+    if mode == "int64" and float(x).is_integer() and abs(x) < 2 ** 53:
+        return np.int64(int(x))
+    if mode == "float32" and float(np.float32(x)) == float(x):
+        return np.float32(x)
+    return np.float64(x)
+
+
+def number_type_fails(case, max_parts=2):
+    """PAYLOAD NUMBER TYPES (after seeded change C01-9: one shared `{'?': code} -> NaN` helper kept a value only
+    when isinstance(x, (int, float)), so np.int64 / np.float32 values of a response built in memory became NaN).
+    The property: a numeric measure reports exactly the value the response carries, unavailable -> NaN; HOW the
+    number is spelled in the dict (int, float, numpy scalar of any width) is not an input.  Relational: the
+    response with every number of every measure's data (and of `counts`) as numpy scalar gives value-exactly
+    the outputs of the plain one."""
+    import copy
+    from harness.props import common_cases as cc
+    meas = case["response"]["result"]["measures"]
+    names = ["counts", "unweighted_counts"] + [pub for m, pub in cu.NUMERIC_NAMES.items() if m in meas]
+    base = impl.guarded(lambda: impl.cube(case["response"]).partitions)
+    if base[0] != "ok":
+        return [], 0
+    fails, n = [], 0
+    for mode in ("int64", "float32"):
+        r2 = copy.deepcopy(case["response"])
+        for m in r2["result"]["measures"].values():
+            m["data"] = [_np_number(x, mode) for x in m["data"]]
+        r2["result"]["counts"] = [_np_number(x, "int64") for x in r2["result"]["counts"]]
+        other = impl.guarded(lambda: impl.Cube(r2).partitions)
+        if other[0] != "ok":
+            fails.append({"what": "numpy numbers in the payload: partitions raise", "mode": mode, "got": other[1:],
+                          "oracle": "number_types"})
+            continue
+        for pidx, (p, q) in enumerate(list(zip(base[1], other[1]))[:max_parts]):
+            n += 1
+            for nm in names:
+                a, b = cc._canon_read(impl.get(p, nm)), cc._canon_read(impl.get(q, nm))
+                if a != b:
+                    fails.append({"what": "%s differs when the payload numbers are numpy scalars" % nm,
+                                  "mode": mode, "part": pidx, "plain": a, "numpy": b, "oracle": "number_types"})
+                    break
+    return fails[:2], n
+
+
+def gen_multitable_case(rng, k):
+    """a multitable: summary cube of a text / enum variable + 1-2 single-column filter cubes that list only the
+    rows somebody in the filter answered (so that the library augments them), ALWAYS weighted with fractional
+    weights (c06.gen_augment is weighted 30% of the time)"""
+    from harness.props import c06
+    t = gen.make_enum(rng, "v0", "text", n_valid=rng.randint(2, 6), with_missing=rng.random() < 0.7)
+    f = gen.make_cat(rng, "f", n_valid=2, n_missing=0)
+    sv = gen.Survey([t, f], rng.choice([3, 5, 9, 14]), rng, weighted=True, zero_weights=False)
+    for r in sv.resp:
+        r["w"] = Fraction(rng.randint(1, 40), rng.choice([4, 8, 10, 16]))
+    return c06.survey_case("augment", k, sv, n_filters=rng.randint(1, 2),
+                           meas={"measures": ["count"], "numvar": None, "valid_counts": False})
+
+
+def multitable_fails(case):
+    """MULTITABLE COLUMNS (after seeded change C01-10: augment_response scattered the weighted counts into an
+    int array, 12.7 -> 12).  The partition of an augmented single-column filter cube is a partition like any
+    other: its weighted / unweighted counts are the (weighted) numbers of respondents of the filter in each row
+    element of the summary - the harness' own tabulation of the filtered survey (c06_util.response), 0 for the
+    rows the filter cube does not list."""
+    from harness.props import c06
+    summary, fulls, filts = c06.augment_responses(case)
+    res = impl.guarded(lambda: c06.cube_set([summary] + filts, 0, None).partition_sets)
+    if res[0] != "ok":
+        return [{"what": "CubeSet.partition_sets raises", "got": res[1:], "oracle": "survey"}], False
+    psets = res[1]
+    fails, augmented = [], False
+    for j, full in enumerate([summary] + fulls):
+        els = full["result"]["dimensions"][0]["type"]["elements"]
+        valid = [i for i, e in enumerate(els) if not e.get("missing")]
+        exp_w = [full["result"]["measures"]["count"]["data"][i] for i in valid]
+        exp_u = [full["result"]["counts"][i] for i in valid]
+        if j and len(filts[j - 1]["result"]["counts"]) != len(summary["result"]["counts"]):
+            augmented = True
+        part = psets[0][j]
+        for nm, exp in (("counts", exp_w), ("unweighted_counts", exp_u)):
+            r = impl.get(part, nm)
+            got = impl.tolist(r[1]) if r[0] == "ok" else None
+            if got is None or len(got) != len(exp) or any(abs(float(a) - float(b)) > 1e-9 * max(1, abs(float(b)))
+                                                          for a, b in zip(got, exp)):
+                fails.append({"what": "multitable column %d: %s is not the tabulation of the filtered survey"
+                              % (j, nm), "got": got if got is not None else list(r[1:]),
+                              "expected": [float(x) for x in exp], "oracle": "survey"})
+    return fails[:2], augmented
+
+
 def gen_cases(tier, seed):
     """the std cases come first and from their own stream, so that they are the cases the check
     always ran; the new families draw from streams of their own"""
@@ -831,6 +935,35 @@ def run(tier, seed):
         rep.count_case(dict(scase, smoothing_stream=True), True)
         rep.dist("late-reads:smoothing-stream")
     rep.cov["late_read_partitions"] = n_late
+    # ---- payload number types: every non-trivial std / numarr / nub case with a numeric measure ----
+    n_types = 0
+    for case in cases:
+        meas = case["response"]["result"]["measures"]
+        if not nontrivial(case) or case.get("ca_as_0th") or not any(m in meas for m in cu.NUMERIC_NAMES):
+            continue
+        if tier != "quick" and case["k"] % 4:
+            continue
+        fails, n = number_type_fails(case)
+        n_types += n
+        if n:
+            rep.dist("payload-number-types:" + family(case))
+        for f in fails:
+            rep.violation("impl-vs-property", dict(cu.replayable(case), number_types=True), f,
+                          {"what": f.get("what"), "class": case_class(case), "leg": "number-types"})
+    rep.cov["number_type_partitions"] = n_types
+    # ---- multitable columns: weighted augmented single-column filter cubes ----
+    rng_mt = random.Random(seed + 73)
+    n_aug = 0
+    for k in range(30 if tier == "quick" else 500):
+        mcase = gen_multitable_case(rng_mt, 700000 + k)
+        fails, augmented = multitable_fails(mcase)
+        n_aug += bool(augmented)
+        rep.count_case(dict(mcase, multitable=True), True)
+        rep.dist("multitable:" + ("augmented" if augmented else "all-rows-listed"))
+        for f in fails:
+            rep.violation("impl-vs-survey", dict(mcase, multitable=True), f,
+                          {"what": f.get("what"), "class": "multitable", "leg": "multitable"})
+    rep.cov["multitable_cases_with_an_augmented_cube"] = n_aug
     rep.cov["rule"] = (
         "cases from random.Random(seed): surveys of 0..30 respondents (dyadic weights incl. 0, or "
         "unweighted) over 1-3 variables of kind cat / cat_date / mr (per-item sel|other|missing) / "
@@ -886,6 +1019,13 @@ def replay(path):
         if not fails:
             print("REPLAY: no longer fails")
         return 1 if fails else 0
+    if case.get("multitable"):
+        fails, _a = multitable_fails(case)
+        for f in fails:
+            print("REPLAY still fails:", json.dumps(core.jsonable(f))[:600])
+        if not fails:
+            print("REPLAY: no longer fails")
+        return 1 if fails else 0
     if case.get("smoothing_stream"):
         fails, _n = late_read_fails(case)
         for f in fails:
@@ -894,6 +1034,13 @@ def replay(path):
             print("REPLAY: no longer fails")
         return 1 if fails else 0
     finish_case(case)
+    if case.get("number_types"):
+        fails, _n = number_type_fails(case)
+        for f in fails:
+            print("REPLAY still fails:", json.dumps(core.jsonable(f))[:600])
+        if not fails:
+            print("REPLAY: no longer fails")
+        return 1 if fails else 0
     if case.get("late_reads"):
         fails, _n = late_read_fails(case)
         for f in fails:
